@@ -308,7 +308,44 @@ func runC13(c *an.Ctx) {
 			okCont := true
 			var at ssa.Instruction
 			for _, r := range ff.Returns() {
-				if ff.AtInstr(r).Has(failed) {
+				fs := ff.AtInstr(r)
+				if !fs.Has(failed) {
+					continue
+				}
+				// in a rotated loop (`for range n`) the way out after the last peer also lies behind
+				// "the last result failed": it is recognised by the loop's own exit test (counter ≥ bound)
+				exhausted := false
+				for _, f := range fs {
+					if f.Op != "LT" || f.Pos || !strings.HasPrefix(f.B, "len(") || !strings.Contains(f.A, "phi@") {
+						continue
+					}
+					// the counter must be the collecting loop's own (not the one of the spawning loop before it)
+					name := f.A[strings.Index(f.A, "phi@")+4:]
+					for i, ch := range name {
+						if (ch < '0' || ch > '9') && ch != 't' {
+							name = name[:i]
+							break
+						}
+					}
+					for _, b := range perform.Blocks {
+						for _, in := range b.Instrs {
+							ph, isPhi := in.(*ssa.Phi)
+							if !isPhi || ph.Name() != name {
+								continue
+							}
+							for _, sb := range perform.Blocks {
+								for _, sin := range sb.Instrs {
+									if sel, isSel := sin.(*ssa.Select); isSel && strings.HasPrefix(recvTerm, t.Of(sel)) {
+										if (b == sb || blockReaches(b, sb)) && (b == sb || blockReaches(sb, b)) {
+											exhausted = true
+										}
+									}
+								}
+							}
+						}
+					}
+				}
+				if !exhausted {
 					okCont, at = false, r
 				}
 			}
